@@ -71,6 +71,9 @@ def units(tier):
         for st in ("seq", "set", "mixed"):
             us.append({"name": f"nest_{st}_d{depth}", "shape": {"kind": "nest", "depth": depth, "st": st}})
     us.append({"name": "skip_value", "shape": {"kind": "skip"}})
+    # the same octets handed to the reader as other buffer types (concrete): bytearray, memoryview
+    # of unsigned / signed / char items - every octet is an octet whatever the view's item format
+    us.append({"name": "buffer_kinds", "shape": {"kind": "views"}})
     return us
 
 
@@ -96,6 +99,31 @@ def minimal(ctx, content):
 def body(ctx, shape):
     k = shape["kind"]
     return globals()["_" + k](ctx, shape)
+
+
+def _views(ctx, shape):
+    import array
+
+    A = ctx.L.asn1
+    for L in (0, 1, 127, 128, 200, 255, 256, 33000):
+        for num in (4, 31, 200):
+            content = bytes((i * 7 + 3) % 256 for i in range(L))
+            w = A.ASN1Writer()
+            w.write_octet_string(content, tag=A.ASN1Tag(A.TagClass.CONTEXT_SPECIFIC, num, False))
+            w.write_integer(-129)
+            w.write_enumerated(-1)
+            w.write_boolean(True)
+            enc = bytes(w.get_data())
+            for nm, mk in (("bytes", lambda b: b), ("bytearray", bytearray), ("mv-B", memoryview), ("mv-b", lambda b: memoryview(array.array("b", [x - 256 if x > 127 else x for x in b]))), ("mv-c", lambda b: memoryview(b).cast("c"))):
+                try:
+                    rd = A.ASN1Reader(mk(enc))
+                    got = bytes(rd.read_octet_string(tag=A.ASN1Tag(A.TagClass.CONTEXT_SPECIFIC, num, False)))
+                    rest = (rd.read_integer(), rd.read_enumerated(int), rd.read_boolean(), bytes(rd.get_remaining_data()))
+                except Exception as e:  # noqa: BLE001
+                    from sx.harness import exc_site
+
+                    ctx.fail("tlv-readback-through-buffer-kind-raises", f"{nm}:{type(e).__name__}@{exc_site(e)}")
+                ctx.require(got == content and rest == (-129, -1, True, b""), "tlv-readback-through-buffer-kind:" + nm)
 
 
 def _call(ctx, f, label):
